@@ -159,6 +159,7 @@ type Frame struct {
 	edge      map[[2]*ssa.BasicBlock]*State
 	pred      *ssa.BasicBlock
 	loopHead  map[*ssa.BasicBlock]*loopRec
+	unrollBack map[*ssa.BasicBlock][]*State // back-edge states of the loop being unrolled (per header)
 	retConds  []*Term
 	retVals   [][]Val
 	retStates []*State
@@ -942,7 +943,11 @@ func (e *Engine) execConvert(fr *Frame, st *State, ins *ssa.Convert) Val {
 		e.copyInto(fr, st, ref, tb.BV(0, 64), func(k *Term) *Term { return tb.Select(src, tb.BVBin("bvadd", off, k)) }, n, true)
 		return tb.Ctor("Str", ref, tb.BV(0, 64), n)
 	case tok && tbb.Info()&types.IsString != 0 && fok && fb.Info()&types.IsInteger != 0:
-		unsupported("string(rune)")
+		// string(rune): a fresh UTF-8 encoding of 1..4 bytes; its contents are left unspecified
+		ref := e.newRef(st)
+		n := tb.Fresh("runelen", SBV64)
+		e.addFact(st, tb.And(tb.BVCmp("bvsle", tb.BV(1, 64), n), tb.BVCmp("bvsle", n, tb.BV(4, 64))))
+		return tb.Ctor("Str", ref, tb.BV(0, 64), n)
 	case tok && tbb.Kind() == types.UnsafePointer:
 		// unsafe.Pointer(p)
 		if p, ok := e.val(fr, ins.X).(*PtrVal); ok {
@@ -1279,7 +1284,11 @@ func (e *Engine) runBody(fr *Frame, st *State) ([]Val, *State) {
 			fmt.Fprintf(os.Stderr, "ORDER %s: block %d %s\n", fn.Name(), b.Index, b.Comment)
 		}
 	}
+	skip := map[*ssa.BasicBlock]bool{}
 	for _, b := range bo.order {
+		if skip[b] {
+			continue
+		}
 		var st0 *State
 		if b == fn.Blocks[0] {
 			st0 = st
@@ -1302,12 +1311,124 @@ func (e *Engine) runBody(fr *Frame, st *State) ([]Val, *State) {
 			}
 			continue
 		}
-		if _, isHead := bo.loops[b]; isHead {
+		if body, isHead := bo.loops[b]; isHead {
+			if spec := e.loopSpec(fr, loopOrd[b]); spec != nil && spec.Unroll > 0 {
+				e.unrollLoop(fr, st0, b, bo, loopOrd, spec.Unroll)
+				for bb := range body {
+					skip[bb] = true
+				}
+				continue
+			}
 			e.enterLoop(fr, st0, b, bo, loopOrd[b])
 		}
 		e.execBlock(fr, st0, b, bo)
 	}
 	return e.mergeReturns(fr)
+}
+
+func (e *Engine) loopSpec(fr *Frame, ord int) *LoopSpec {
+	if fr.contract == nil {
+		return nil
+	}
+	return fr.contract.Loops[ord]
+}
+
+// unrollLoop executes a loop by passing through its header at most k times ("loop N unroll k").
+// The state that would enter the header a (k+1)-th time must be unreachable: that is the
+// unwinding obligation, and with it discharged the unrolling is complete, not a bound.
+func (e *Engine) unrollLoop(fr *Frame, st0 *State, h *ssa.BasicBlock, bo *blockOrder, loopOrd map[*ssa.BasicBlock]int, k int) {
+	tb := e.tb
+	body := bo.loops[h]
+	// registers defined inside the loop and used after it would be those of the last pass only
+	for b := range body {
+		for _, ins := range b.Instrs {
+			v, ok := ins.(ssa.Value)
+			if !ok {
+				continue
+			}
+			if _, isAlloc := ins.(*ssa.Alloc); isAlloc {
+				continue
+			}
+			if refs := v.Referrers(); refs != nil {
+				for _, r := range *refs {
+					if !body[r.Block()] {
+						unsupported("unrolled loop %d of %s: value %s is used after the loop", loopOrd[h], fr.fn.Name(), v.Name())
+					}
+				}
+			}
+		}
+	}
+	if fr.unrollBack == nil {
+		fr.unrollBack = map[*ssa.BasicBlock][]*State{}
+	}
+	exits := map[[2]*ssa.BasicBlock][]*State{}
+	var exitOrder [][2]*ssa.BasicBlock
+	cur := st0
+	for pass := 0; pass < k; pass++ {
+		fr.unrollBack[h] = []*State{}
+		for _, b := range bo.order {
+			if !body[b] {
+				continue
+			}
+			var stb *State
+			if b == h {
+				stb = cur
+			} else {
+				var ins []*State
+				for _, p := range b.Preds {
+					if bo.back[[2]*ssa.BasicBlock{p, b}] {
+						continue
+					}
+					ins = append(ins, fr.edge[[2]*ssa.BasicBlock{p, b}])
+				}
+				stb = e.mergeStates(ins)
+			}
+			if stb.dead || stb.cond.IsFalse() {
+				for _, s := range b.Succs {
+					d := stb.clone()
+					d.dead = true
+					if !bo.back[[2]*ssa.BasicBlock{b, s}] {
+						fr.edge[[2]*ssa.BasicBlock{b, s}] = d
+					}
+				}
+			} else {
+				if _, isHead := bo.loops[b]; isHead && b != h {
+					e.enterLoop(fr, stb, b, bo, loopOrd[b])
+				}
+				e.execBlock(fr, stb, b, bo)
+			}
+			for _, s := range b.Succs {
+				if body[s] {
+					continue
+				}
+				key := [2]*ssa.BasicBlock{b, s}
+				if _, seen := exits[key]; !seen {
+					exitOrder = append(exitOrder, key)
+				}
+				if es := fr.edge[key]; es != nil {
+					exits[key] = append(exits[key], es)
+				}
+			}
+		}
+		backs := fr.unrollBack[h]
+		if len(backs) == 0 {
+			cur = st0.clone()
+			cur.dead = true
+			cur.cond = tb.False()
+			break
+		}
+		cur = e.mergeStates(backs)
+		if cur.dead || cur.cond.IsFalse() {
+			break
+		}
+	}
+	delete(fr.unrollBack, h)
+	if !cur.dead && !cur.cond.IsFalse() {
+		e.addObligation(fr, cur, "unwind", fmt.Sprintf("loop%d.unroll%d", loopOrd[h], k), tb.False(), nil)
+	}
+	for _, key := range exitOrder {
+		fr.edge[key] = e.mergeStates(exits[key])
+	}
 }
 
 func (e *Engine) mergeReturns(fr *Frame) ([]Val, *State) {
@@ -1427,6 +1548,12 @@ func (e *Engine) execPanic(fr *Frame, st *State, ins *ssa.Panic) {
 
 func (e *Engine) flow(fr *Frame, from, to *ssa.BasicBlock, st *State, bo *blockOrder) {
 	if bo.back[[2]*ssa.BasicBlock{from, to}] {
+		if fr.unrollBack != nil {
+			if _, ok := fr.unrollBack[to]; ok {
+				fr.unrollBack[to] = append(fr.unrollBack[to], st)
+				return
+			}
+		}
 		e.backEdge(fr, st, from, to)
 		return
 	}
